@@ -20,7 +20,7 @@ import subprocess
 import sys
 
 VERIF = pathlib.Path(__file__).resolve().parent.parent
-SCRATCH = pathlib.Path('/tmp/wt_seedtool')
+SCRATCH = pathlib.Path('/tmp/wt_seedtool' + os.environ.get('SEEDTOOL_SUFFIX', ''))
 ENV = dict(os.environ, PYTHONWARNINGS='ignore', MPLBACKEND='Agg')
 
 
@@ -42,7 +42,7 @@ def fresh_worktree():
 
 def passed_tests(src_root: pathlib.Path) -> set:
     env = dict(ENV, PYTHONPATH=str(src_root / 'src'))
-    junit = '/tmp/seedtool_junit.xml'
+    junit = f'/tmp/seedtool_junit{os.environ.get("SEEDTOOL_SUFFIX", "")}.xml'
     sh(['/venv/bin/python', '-m', 'pytest', '-q', '-p', 'no:cacheprovider', '--timeout=900',
         '--continue-on-collection-errors', f'--junitxml={junit}'], cwd=src_root, env=env)
     import xml.etree.ElementTree as ET
